@@ -50,12 +50,6 @@ def filterClone (mask : Option (List Path)) (fs : Fields) : Out Fields := filter
 
 /-! ## Specification: projection onto a path set -/
 
-/-- The continuations below field `k`: tails of the paths whose first segment is `k`. -/
-def tails (k : Name) : List Path → List Path
-  | [] => []
-  | [] :: ps => tails k ps
-  | (a :: t) :: ps => if a = k then t :: tails k ps else tails k ps
-
 mutual
   /-- Keep exactly what the path set `ps` selects. -/
   def project (ps : List Path) : Fields → Fields
